@@ -100,26 +100,46 @@ Theorem C15_dedup_wrapper : forall (g : gen) (m : Z) (hm auto maxdup maxatt : na
 Proof. exact dedup_preserves_recoverability. Qed.
 Print Assumptions C15_dedup_wrapper.
 
-(* NSGA2 / NEAT and every other Evolution: ANY population initialiser, ANY reproduction operator and ANY
-   population_update operator over ANY global state recover counters and population, provided the update
-   depends only on a part [vis] of the global state that reproduction does not change (NSGA2: the elites,
-   not the cursor; NEAT: the species list).  Partial: that NSGA2's and NEAT's shipped operators satisfy the
-   two hypotheses is not proved here (they are run, not modelled; the correspondence records NSGA2's update
-   as a table), and the rest of the global state, num_generations and the pending children of a
-   multi-child generation are not claimed. *)
-Theorem C15_evolution_any_operators_partial :
+(* Every Evolution: ANY population initialiser, ANY reproduction operator and ANY population_update operator over
+   ANY global state recover counters and population, provided the update depends only on a part [vis] of the
+   global state that reproduction does not change. *)
+Theorem C15_evolution_any_operators :
   forall (gi : gen) (size : option nat) (G : Type) (g0 : G)
          (repro : list dna -> G -> Z -> nat -> list Z * G) (updf : list dna -> G -> nat -> list dna * G)
-         (V : Type) (vis : G -> V) (rw : Z -> Z) (evs : list Z),
+         (gobs : G -> list Z) (V : Type) (vis : G -> V) (rw : Z -> Z) (evs : list Z),
   (forall pop g1 g2 step, vis g1 = vis g2 ->
      fst (updf pop g1 step) = fst (updf pop g2 step) /\ vis (snd (updf pop g1 step)) = vis (snd (updf pop g2 step))) ->
   (forall pop g ngen np, vis (snd (repro pop g ngen np)) = vis g) ->
-  let g := Evolution gi size G g0 repro updf in
+  let g := Evolution gi size G g0 repro updf gobs in
   let r := run_events g rw evs in
   r_ok g r = true ->
   pview (obs g (recovered g (r_hist g r))) = pview (obs g (r_st g r)).
 Proof. exact evolution_any_operators. Qed.
-Print Assumptions C15_evolution_any_operators_partial.
+Print Assumptions C15_evolution_any_operators.
+
+(* NSGA2 with its shipped operators modelled (nsga2_updf: elites + waiting individuals >> nondominated sort >>
+   crowding-distance sort per front >> First(n) saved as elites, cursor reset, population emptied; nsga2_repro:
+   next_elite moves the cursor, the mutated child is arbitrary): counters and population are recovered by
+   C15_recover_observable (update kind UNsga2), and so are the elites. *)
+Theorem C15_nsga2_elites : forall (m : Z) (i : alg) (sz : option nat) (n : nat) (t : list (list Z)) (rw : Z -> Z) (evs : list Z),
+  let g := denote m (AEvo i sz (UNsga2 n) t) in
+  let r := run_events g rw evs in
+  r_ok g r = true ->
+  fst (ev_g _ _ (recovered g (r_hist g r))) = fst (ev_g _ _ (r_st g r)).
+Proof. exact nsga2_elites_recovered. Qed.
+Print Assumptions C15_nsga2_elites.
+
+(* NEAT: the update keeps the newest generation and then speciates; the population it returns does not depend on
+   the species. For ANY speciation function over ANY state, any reproduction, any initialiser. *)
+Theorem C15_neat_any_speciation :
+  forall (gi : gen) (size : option nat) (G : Type) (g0 : G) (repro : list dna -> G -> Z -> nat -> list Z * G)
+         (speciate : list dna -> G -> nat -> G) (gobs : G -> list Z) (rw : Z -> Z) (evs : list Z),
+  let g := Evolution gi size G g0 repro (fun pop st step => (apply_upd UTopGen pop step, speciate pop st step)) gobs in
+  let r := run_events g rw evs in
+  r_ok g r = true ->
+  pview (obs g (recovered g (r_hist g r))) = pview (obs g (r_st g r)).
+Proof. exact neat_any_speciation. Qed.
+Print Assumptions C15_neat_any_speciation.
 
 (* Not recovered (and not claimed by the property): num_generations while the initial population is still
    being proposed — 0 in the uninterrupted run, 1 after recover. *)
